@@ -30,6 +30,18 @@ func (ru *run) planBlock(parent *chainBlock) blockPlan {
 	case 3: // skip more than a whole epoch
 		gap = types.EpochLength + 1 + t.Choose(types.EpochLength, "gap_big")
 	}
+	// the corner of the sealer-sequence rule: a full accumulator whose epoch ends (submission window closed) and
+	// is followed by a block one epoch later (tickets decide) or MORE than one epoch later (fallback keys decide)
+	if len(st.Gamma.GammaA) == types.EpochLength {
+		_, m := epochOf(st.Tau)
+		switch {
+		case int(m) < types.SlotSubmissionEnd && t.Prob(1, 4, "full_acc_close_window"):
+			gap = types.SlotSubmissionEnd - int(m) + t.Choose(types.EpochLength-types.SlotSubmissionEnd, "full_acc_tail")
+		case int(m) >= types.SlotSubmissionEnd && t.Prob(1, 3, "full_acc_skip_epoch"):
+			gap = 2*types.EpochLength - int(m) + t.Choose(types.EpochLength, "full_acc_skip")
+			ru.r.Count("probe:full_accumulator_closed_window_then_skipped_epoch", 1)
+		}
+	}
 	plan.slot = st.Tau + types.TimeSlot(gap)
 	if plan.slot < ru.minSlot {
 		plan.slot = ru.minSlot
